@@ -34,7 +34,7 @@ UNIT = dict(
     replay=_replay,
     trusted=['DataField::write (m_data->write) is an environment stub: it fails, or appends the bytes of the encoded field values (ghost array, length fixed by the definition) directly after the id at the offset it is given; its own layout is decided in units fields/number',
              'SymbolString accessors: deterministic stubs mirroring model/ss_contracts.h (enforced against symbol.h in unit symbol); std::vector<vector<symbol_t>> / vector<size_t> are fixed-capacity arrays (3 chain parts, ids up to 8 bytes); time() is a clock stub'],
-    defines=[('src/lib/ebus/datatype.h', ['UI_FIELD_SEPARATOR'])],
+    defines=[('src/lib/ebus/datatype.h', ['UI_FIELD_SEPARATOR', 'MAX_POS'])],
     enums=[('src/lib/ebus/result.h', 'result_t'), (SYM_H, 'PredefinedSymbol', 'PredefinedSymbol', 'symbol_t'), ('src/lib/ebus/datatype.h', 'PartType'), ('src/lib/ebus/datatype.h', 'OutputFormat', 'OutputFormatE')],
     structs=[dict(file=SYM_H, classes=['SymbolString'], cname='SymbolString', member_types={'m_data': 'vsym'}, is_self=False)],
     cfg=dict(
@@ -66,6 +66,34 @@ UNIT = dict(
              cfg=dict(type_map={'ostream': 'struct oss', 'OutputFormat': 'unsigned', 'ssize_t': 'long'}, methods={'read': 'DF_read', 'getCount': 'DF_getCount'},
                       own_methods={'getIdLength': ('Message_getIdLength', 'self')},
                       text_subs=[(r'DF_read\(self->m_data, self->m_lastMasterData,', 'DF_read(self->m_data, &self->m_lastMasterData,'), (r'DF_read\(self->m_data, self->m_lastSlaveData,', 'DF_read(self->m_data, &self->m_lastSlaveData,'), (r'\bssize_t\b', 'long')])),
+        # chain id parsing in Message::create (fragment, rule R16): establishes the well-formedness of chains the other harnesses assume
+        dict(file=MSG_CPP, name='Message::create', cname='Message_create_chainIds', self=None, ret='result_t',
+             params_c=['vsym* id_p', '_Bool isPassive', 'struct idvec* chainIds_p', 'struct lenvec* chainLengths_p', 'size_t* maxLength_p'],
+             fragment=dict(start=r'vector< vector<symbol_t> > chainIds;', end=r'vector<string> newTypes;', tail=' *maxLength_p = maxLength; return RESULT_OK; '),
+             pre_subs=[(r'vector< vector<symbol_t> > chainIds;\s*vector<size_t> chainLengths;', 'result_t result = RESULT_OK; size_t pos = 0;', 1),
+                       (r'istringstream stream\(str\);', '', 1),
+                       (r'getline\(stream, str, VALUE_SEPARATOR\)', 'env_next_id()', 1),
+                       (r'FileReader::trim\(&str\);', '', 1), (r'str = defaultIdPrefix\+str;', '', 1),
+                       (r'size_t lengthPos = str\.find\(LENGTH_SEPARATOR\);', 'size_t lengthPos = env_length_pos();', 1),
+                       (r'lengthPos != string::npos', 'lengthPos != ENV_NPOS', 1),
+                       (r'parseInt\(str\.substr\(lengthPos\+1\)\.c_str\(\), 10, 0, MAX_POS, &result\)', 'env_parse_len(MAX_POS, &result)', 1),
+                       (r'\*errorDescription = "[^"]*"\s*\+\s*str;', '', (3, 6)), (r'\*errorDescription = "id \(passive\)";', '', 1),
+                       (r'str\.resize\(lengthPos\);', '', 1),
+                       (r'vector<symbol_t> chainId = id;', 'vsym chainId = *id_p;', 1),
+                       (r'result = parseId\(str, &chainId\);', 'result = env_parse_id(&chainId);', 1),
+                       (r'chainIds\.front\(\)\.size\(\)', 'IDS_FRONT_SIZE(chainIds_p)', 1),
+                       (r'!chainIds\.empty\(\)', '(chainIds_p->n != 0)', 1),
+                       (r'chainIds\.push_back\(chainId\);', 'idvec_push(chainIds_p, &chainId);', 1),
+                       (r'chainLengths\.push_back\(\(symbol_t\)chainLength\);', 'lenvec_push(chainLengths_p, (symbol_t)chainLength);', 1),
+                       (r'vector<symbol_t>& front = chainIds\.front\(\);', 'const vsym* front = &chainIds_p->e[0];', 1),
+                       (r'chainId\[pos\] != front\[pos\]', 'vsym_get(&chainId, pos) != vsym_get(front, pos)', 1),
+                       (r'chainId\.size\(\)', 'chainId.n', 2),
+                       (r'id = chainIds\.front\(\);', '*id_p = chainIds_p->e[0];', 1),
+                       (r'chainIds\.size\(\) > 1', 'chainIds_p->n > 1', 1),
+                       (r'id\.size\(\) > chainPrefixLength', 'id_p->n > chainPrefixLength', 1),
+                       (r'id\.resize\(chainPrefixLength\);', 'id_p->n = chainPrefixLength;', 1),
+                       (r'size_t chainPrefixLength = id\.size\(\);', 'size_t chainPrefixLength = id_p->n;', 1)],
+             cfg=dict(text_subs=[])),
         # chained messages
         dict(file=MSG_H, inline_class='Message', name='getIdLength', cname='Message_getIdLength', self='struct Message'),
         dict(file=MSG_H, inline_class='ChainedMessage', name='getIdLength', cname='Chained_getIdLength', self='struct Message', pre_subs=[_IDS0]),
@@ -104,6 +132,7 @@ R('prepare', 'h_prepare', None, defines=_D, cost=30, bounded=_B, **_U)
 R('prepare_slave', 'h_prepare_slave', None, defines=_D, cost=30, bounded=_B, **_U)
 R('store', 'h_store', None, defines=_D, cost=30, bounded='telegram parts of up to 32 symbols', **_U)
 R('decode', 'h_decode', None, defines=_D, cost=10, **_U)
+R('create_chain', 'h_create_chain', None, defines=_D, cost=20, bounded='up to 3 chain ids of up to 4 further bytes', **_U)
 R('chain_prepare', 'h_chain_prepare', None, defines=_DS2, cost=30, timeout=900, bounded='chains of 2 parts, ids up to 3 further bytes, 2 data bytes per part', **_US2)
 R('chain_store', 'h_chain_store', None, defines=_DS2, cost=40, timeout=900, bounded='chains of 2 parts, ids up to 3 further bytes, 2 data / 3 slave bytes per part', **_US2)
 R('chain_prepare3', 'h_chain_prepare', None, defines=_DS3, cost=200, timeout=1800, tier='thorough', bounded='chains of up to 3 parts, ids up to 4 further bytes, 3 data bytes per part', **_US3)
